@@ -30,7 +30,7 @@ PROPS = {
  },
  "C02": {
   "module": "Zog.Props.C02",
-  "theorems": COMMON + [P + "C02." + t for t in ["all_failing_tests_reported", "issue_code_and_path", "satisfied_no_issue", "missing_required_one_issue", "uncoercible_one_issue", "slice_uncoercible", "struct_uncoercible", "nil_iff_no_issue", "engine_reports_spec_issues"]],
+  "theorems": COMMON + [P + "C02." + t for t in ["all_failing_tests_reported", "issue_code_and_path", "satisfied_no_issue", "missing_required_one_issue", "uncoercible_one_issue", "slice_uncoercible", "struct_uncoercible", "nil_iff_no_issue", "no_issue_iff_no_violation_spec", "no_issue_iff_no_violation", "violation_is_reported", "no_violation_at_prim", "engine_reports_spec_issues"]] + ["Zog.Spec.clean_iff", "Zog.Spec.noViolFields_iff", "Zog.Spec.primBody_clean_iff"],
   "streams": [eng(3000, 150000), eng(2000, 100000, "catch"), eng(1200, 60000, "deep")],
   "trusted_base": ENGINE_TB, "assumptions": ENGINE_ASSUME,
  },
